@@ -126,7 +126,10 @@ def from_xir(xir_prog: xir.Program) -> Program:
             else:
                 gate() | regrefs  # pylint:disable=expression-not-assigned,pointless-statement
 
-    prog._target = xir_prog.options.get("_target_", None)  # pylint: disable=protected-access
+    # ``to_xir`` stores the target under the key "target"; "_target_" is kept for older scripts
+    prog._target = xir_prog.options.get(  # pylint: disable=protected-access
+        "target", xir_prog.options.get("_target_", None)
+    )
 
     if "shots" in xir_prog.options:
         prog.run_options["shots"] = xir_prog.options["shots"]
